@@ -974,6 +974,9 @@ func (c *Ctx) checkConfigSemantics(r *Report, ro *Roles, rule string) bool {
 			}
 			add("element "+e.kind+" left out", clear)
 			add("element "+e.kind+" of the unknown type NoSuchPluginType", func(m map[string]string) { clear(m); m[at+".type"] = "NoSuchPluginType" })
+			// the element's section is present (it has keys of its own) but names no type: not the same as "left out"
+			add("element "+e.kind+" with a section of its own but no type key", func(m map[string]string) { clear(m); m[at+".someAttr"] = "v" })
+			add("element "+e.kind+" with only a nested key and no type key", func(m map[string]string) { clear(m); m[at+".sub.key"] = "v" })
 			for qi := range plugins {
 				q := &plugins[qi]
 				if q.kind != camel(e.kind) {
